@@ -205,6 +205,59 @@ func init() {
 			}
 		}})
 
+	register(Suite{Name: "c16-smtp-direct", Property: "C16",
+		Rule: "the smtp package used directly: smtp.NewClient and then Client.Auth as the FIRST command (the implicit EHLO / HELO fallback happens inside Auth), debug logging on: mechanisms x generated credentials x server behaviour (success, 535, malformed challenge, disconnect, EHLO refused -> HELO); the records are compared with the model (authWith on a fresh connection) and scanned for the password and every SASL response",
+		Run: func(c *Ctx) {
+			n := c.N(300, 15000)
+			for i := 0; i < n; i++ {
+				r := c.Rng
+				ac := genAuthCase(r)
+				ac.tlsMode = 0
+				ac.mech = []string{"PLAIN-NOENC", "LOGIN-NOENC", "CRAM-MD5", "XOAUTH2", "SCRAM-SHA-1", "SCRAM-SHA-256"}[r.Intn(6)]
+				if r.Chance(70) {
+					ac.srvPass = ac.pass
+				}
+				sc, _ := ac.scenario()
+				sc.Debug = true
+				sc.LogAuth = r.Chance(10)
+				behaviour := r.Intn(5)
+				base := sc.dynamic
+				step := r.Intn(3)
+				count := 0
+				sc.dynamic = func(pos int, verb, line string) (SrvAction, bool) {
+					if verb == "EHLO" && behaviour == 4 {
+						return SrvAction{Kind: "reply", Code: 502, Text: "5.5.1 EHLO not implemented"}, true
+					}
+					if verb == "AUTH" || verb == "auth-step" {
+						k := count
+						count++
+						a, ok := base(pos, verb, line)
+						if k == step {
+							switch behaviour {
+							case 1:
+								return SrvAction{Kind: "reply", Code: 535, Text: "5.7.8 no"}, true
+							case 2:
+								return SrvAction{Kind: "reply", Code: 334, Text: "!!!not-base64!!!"}, true
+							case 3:
+								return SrvAction{Kind: "drop"}, true
+							}
+						}
+						return a, ok
+					}
+					return SrvAction{}, false
+				}
+				run := RunAuthFirst(sc)
+				if run.Panic != nil {
+					c.Violate("dial-panic", fmt.Sprintf("the client panicked / hung: %v", run.Panic), sc)
+					continue
+				}
+				line := strings.Replace(sc.modelLine(run), "smtp dial ", "smtp authfirst ", 1)
+				c.AddCase(Case{Line: line, Want: run.wantLine(), Nontrivial: true,
+					Branch: fmt.Sprintf("%s:behaviour=%d:logauth=%v", ac.mech, behaviour, sc.LogAuth), Desc: sc})
+				oracleLogs(c, sc, run)
+			}
+		}})
+
 	register(Suite{Name: "c16-log", Property: "C16",
 		Rule: "debug logging with a capturing logger and the stock text / JSON loggers, auth-data logging off (and on, as control): mechanisms x generated credentials x server behaviour (success, 535 at each step, malformed challenge, unexpected extra challenge, disconnect), followed by RSET after a successful dial; no record may contain the password, any SASL response the client sent or any 3xx challenge payload; traffic after the exchange must be logged verbatim; records compared with the model",
 		Run: func(c *Ctx) {
